@@ -62,7 +62,45 @@ def notations():
     N.append(("named_tz", "abbr", 0, lambda t: "%04d-%02d-%02d %02d:%02d:%02d %s" % (t["y"], t["m"], t["d"], t["H"], t["M"], t["S"], t["abbr"])))
     N.append(("wday_mon", "none", 0, lambda t: "%s %s %s %02d:%02d:%02d %04d" % (casev(wd(t["y"], t["m"], t["d"]), t["cm"]), casev(MON[t["m"] - 1], t["cm"]), ("%2d" if t["dd"] == 0 else "%02d") % t["d"], t["H"], t["M"], t["S"], t["y"])))
     N.append(("wday_mon_tz", "abbr", 0, lambda t: "%s %s %02d %02d:%02d:%02d %s %04d" % (wd(t["y"], t["m"], t["d"]), MON[t["m"] - 1], t["d"], t["H"], t["M"], t["S"], t["abbr"], t["y"])))
+    # --- forms found in the wild (web servers, package managers, hypervisors, key=value and JSON loggers, level prefixes),
+    #     kept if the unchanged tree recognises them (calibrated once; unrecognised candidates are listed in DESIGN.md)
+    D = lambda t: (t["y"], t["m"], t["d"], t["H"], t["M"], t["S"])
+    F = lambda t: frac_s(t["n"], t["fd"])
+    N.append(("iso_T_nozone", "none", 6, lambda t: "%04d-%02d-%02dT%02d:%02d:%02d%s" % (D(t) + (F(t),))))
+    N.append(("iso_sp_nozone", "none", 6, lambda t: "%04d-%02d-%02d %02d:%02d:%02d%s" % (D(t) + (F(t),))))
+    N.append(("iso_sp_comma_nozone", "none", 3, lambda t: "%04d-%02d-%02d %02d:%02d:%02d,%s" % (D(t) + (("%09d" % t["n"])[:3],))))
+    N.append(("apache_clf", "num", 0, lambda t: '127.0.0.1 - - [%02d/%s/%04d:%02d:%02d:%02d %s] "GET / HTTP/1.1" 200' % (t["d"], MON[t["m"] - 1], t["y"], t["H"], t["M"], t["S"], offs(t["off"], False))))
+    N.append(("clf_start", "num", 0, lambda t: '[%02d/%s/%04d:%02d:%02d:%02d %s] GET' % (t["d"], MON[t["m"] - 1], t["y"], t["H"], t["M"], t["S"], offs(t["off"], False))))
+    N.append(("apache_err", "none", 6, lambda t: '[%s %s %02d %02d:%02d:%02d%s %04d] [core:notice]' % (wd(t["y"], t["m"], t["d"]), MON[t["m"] - 1], t["d"], t["H"], t["M"], t["S"], F(t), t["y"])))
+    N.append(("long_month", "none", 0, lambda t: '%s, %s %d, %04d %02d:%02d:%02d' % (LWDAY[calendar.weekday(t["y"], t["m"], t["d"])], LMON[t["m"] - 1], t["d"], t["y"], t["H"], t["M"], t["S"])))
+    N.append(("compact_sp", "none", 0, lambda t: '%04d%02d%02d %02d%02d%02d msg' % D(t)))
+    N.append(("compact_dash", "none", 0, lambda t: '%04d%02d%02d-%02d%02d%02d msg' % D(t)))
+    N.append(("compact_T_nozone", "none", 0, lambda t: '%04d%02d%02dT%02d%02d%02d msg' % D(t)))
+    N.append(("underscore", "none", 0, lambda t: '%04d-%02d-%02d_%02d:%02d:%02d msg' % D(t)))
+    N.append(("iso_hour_off", "numh", 6, lambda t: "%04d-%02d-%02dT%02d:%02d:%02d%s%s" % (D(t) + (F(t), ("+" if t["off"] >= 0 else "-") + "%02d" % (abs(t["off"]) // 60)))))
+    N.append(("kv_time", "utc", 6, lambda t: 'time="%04d-%02d-%02dT%02d:%02d:%02d%sZ" level=info msg=x' % (D(t) + (F(t),))))
+    N.append(("json_ts", "utc", 3, lambda t: '{"timestamp":"%04d-%02d-%02dT%02d:%02d:%02d%sZ","level":"info"}' % (D(t) + (F(t),))))
+    N.append(("level_prefix", "none", 3, lambda t: 'INFO %04d-%02d-%02d %02d:%02d:%02d%s worker' % (D(t) + (F(t),))))
+    N.append(("level_bracket", "none", 0, lambda t: '[INFO] %04d-%02d-%02d %02d:%02d:%02d worker' % D(t)))
+    N.append(("level_colon", "none", 0, lambda t: 'ERROR: %04d-%02d-%02d %02d:%02d:%02d worker' % D(t)))
+    N.append(("host_prefix", "num", 0, lambda t: 'host1 %04d-%02d-%02dT%02d:%02d:%02d%s app' % (D(t) + (offs(t["off"], True),))))
+    N.append(("pacman", "num", 0, lambda t: '[%04d-%02d-%02dT%02d:%02d:%02d%s] [ALPM] installed' % (D(t) + (offs(t["off"], False),))))
+    N.append(("dpkg", "none", 0, lambda t: '%04d-%02d-%02d %02d:%02d:%02d status installed x' % D(t)))
+    N.append(("apt_start", "none", 0, lambda t: 'Start-Date: %04d-%02d-%02d  %02d:%02d:%02d' % D(t)))
+    N.append(("vmware", "utc", 3, lambda t: '%04d-%02d-%02dT%02d:%02d:%02d%sZ| vmx| I125: x' % (D(t) + (F(t),))))
+    N.append(("win_cbs", "none", 0, lambda t: '%04d-%02d-%02d %02d:%02d:%02d, Info                  CBS    x' % D(t)))
+    N.append(("pri_iso", "num", 0, lambda t: '<14>%04d-%02d-%02dT%02d:%02d:%02d%s host app' % (D(t) + (offs(t["off"], True),))))
+    N.append(("iso_tz_utcword", "num", 0, lambda t: '%04d-%02d-%02d %02d:%02d:%02d %s UTC msg' % (D(t) + (offs(t["off"], False),))))
+    N.append(("iso_T_abbr", "abbr", 0, lambda t: '%04d-%02d-%02dT%02d:%02d:%02d %s msg' % (D(t) + (t["abbr"],))))
+    N.append(("wday_iso", "num", 0, lambda t: '%s %04d-%02d-%02d %02d:%02d:%02d %s msg' % ((wd(t["y"], t["m"], t["d"]),) + D(t) + (offs(t["off"], False),))))
+    N.append(("yyyy_mon_dd_sp", "num", 0, lambda t: '%04d %s %02d %02d:%02d:%02d %s msg' % (t["y"], MON[t["m"] - 1], t["d"], t["H"], t["M"], t["S"], offs(t["off"], True))))
+    N.append(("mid_line", "num", 0, lambda t: 'kernel: something happened at %04d-%02d-%02dT%02d:%02d:%02d%s ok' % (D(t) + (offs(t["off"], True),))))
+    N.append(("epoch_s", "epoch", 0, lambda t: '%d msg' % t["epoch"]))
     return N
+
+
+LMON = ["January", "February", "March", "April", "May", "June", "July", "August", "September", "October", "November", "December"]
+LWDAY = ["Monday", "Tuesday", "Wednesday", "Thursday", "Friday", "Saturday", "Sunday"]
 
 
 def days_from_civil(y, m, d):
@@ -77,6 +115,8 @@ def instant(t, fallback_min, zonekind):
         off = 0
     elif zonekind == "num":
         off = t["off"]
+    elif zonekind == "numh":      # hour-only offset (+HH): the minutes of the abstract offset are not written
+        off = (abs(t["off"]) // 60) * 60 * (1 if t["off"] >= 0 else -1)
     elif zonekind == "abbr":
         off = ABBR.get(t["abbr"], fallback_min)
     else:
@@ -170,10 +210,14 @@ def run(pid, tier, seed):
             else:
                 variants.append((name, zk, maxfd, render, "nofrac"))
                 variants.append((name, zk, maxfd, render, "frac"))
+        # a single file is printed in file order whatever its instants: every file after the first of a notation holds the
+        # same timestamps in shuffled order (messages out of chronological order, jumps of decades either way)
+        shuffled = list(sts)
+        rng.shuffle(shuffled)
         for name, zk, maxfd, render, fv in variants:
-            for fbs, fbm in fallbacks:
+            for fi_, (fbs, fbm) in enumerate(fallbacks):
                 lines, exp = [], []
-                for i, t in enumerate(sts):
+                for i, t in enumerate(sts if fi_ == 0 else shuffled):
                     t = dict(t)
                     if fv == "nofrac":
                         t["fd"] = 0
@@ -196,7 +240,7 @@ def run(pid, tier, seed):
                     ln = "%s line=%d" % (render(t), i)
                     lines.append(ln)
                     exp.append(fmt_instant(*inst) + ":" + ln)
-                jobs.append((name + ":" + fv, fbs, "\n".join(lines) + "\n", exp))
+                jobs.append((name + ":" + fv + ("" if fi_ == 0 else ":shuffled"), fbs, "\n".join(lines) + "\n", exp))
 
         def do(job):
             name, fbs, blob, exp = job
@@ -205,7 +249,7 @@ def run(pid, tier, seed):
             with open(os.path.join(d, "n.log"), "w") as f:
                 f.write(blob)
             return common.run_s4(["--tz-offset=" + fbs, "--color", "never", "-u", "-d", "%Y%m%dT%H%M%S%.9f", "n.log"], cwd=d,
-                                 timeout=900, tz_args=False)
+                                 timeout=120, tz_args=False)
 
         t0 = time.time()
         with ThreadPoolExecutor(max_workers=8) as ex:
@@ -219,6 +263,9 @@ def run(pid, tier, seed):
             if got and got[-1] == "":
                 got.pop()
             rec = {"kind": "c04", "notation": name, "tz_offset": fbs}
+            if rr.timed_out:
+                rep.violation("hang:%s" % name, "%s under %s: no exit within 120 s (%d lines)" % (name, fbs, len(exp)), rec)
+                continue
             if rr.crashed:
                 rep.violation("crash:%s" % name, "rc=%s %r" % (rr.rc, rr.err[-200:]), rec)
                 continue
